@@ -12,6 +12,28 @@ CHECKS = {
                      'segmentation independence and parser reset on every path; parser reset extends the single-frame result to pipelines.',
                 design='5 C09', note=NOTE_COMMON + ' Decoder level: 1 symbolic frame, 2 deliveries; socket level: bounded reads.'),
 }
+STORE_NOTE = NOTE_COMMON + (' Store level: one command from an arbitrary well-formed state vector (2 keys), uninterpreted byte strings, '
+              'clock constant within a command; histories by induction over the checked state invariant, plus solver-side BMC where stated.')
+CHECKS.update({
+    'C01': dict(text='One-step refinement of every MemcStore command (real MIR paths) against a reference model from an arbitrary well-formed '
+                     'state: values/flags returned exactly, frame condition on the other key, visibility only changed as specified, stored CAS non-zero; '
+                     'wire round trip (decode -> handler -> encode) checked by the handler-level harness.',
+                design='5 C01', note=STORE_NOTE),
+    'C02': dict(text='One-step refinement (success iff CAS equal, failures leave the item untouched, acknowledged CAS = stored CAS, tokens strictly '
+                     'increase within a lifetime, counter stays ahead of stored tokens) plus in-solver BMC of k-command histories from the empty store '
+                     'for token re-issue within a lifetime; history witnesses are replayed natively frame by frame.',
+                design='5 C02', note=STORE_NOTE),
+    'C05': dict(text='One-step refinement of visibility and deadline of every key after every command for every clock value and TTL: expired items '
+                     'are absent for all presence-dependent commands, no command (incl. delayed flush) moves a deadline later.',
+                design='5 C05', note=STORE_NOTE + ' TTL ranges over all u32 (the statement speaks about 0..30 days).'),
+    'C06': dict(text='One-step refinement of add/replace/append/prepend: status per presence, old+suffix / prefix+old as terms, flags kept, '
+                     'rejected commands leave value, flags and CAS untouched.', design='5 C06', note=STORE_NOTE),
+    'C07': dict(text='One-step refinement of incr/decr: (v+d) mod 2^64, max(v-d,0), decimal text stored, flags kept, creation unless expiration is '
+                     '0xffffffff, non-numeric error leaves the item unchanged, no arithmetic panic (overflow checks on).',
+                design='5 C07', note=STORE_NOTE + ' "decimal u64" is whatever str::parse::<u64> accepts (uninterpreted isnum/num on stored terms).'),
+    'C08': dict(text='One-step refinement of delete (not found / key exists / removed, other keys untouched) and flush (immediate: nothing visible; '
+                     'delay n: every deadline becomes min(old, now+n)); later stores unaffected.', design='5 C08', note=STORE_NOTE),
+})
 NA = {
 }
 ALL = ['C%02d' % i for i in range(1, 21)]
